@@ -28,9 +28,10 @@ SPEC = {
                     "theorems about emitted frames assume a 'quiet' node (device may transmit, queue empty, driver accepts); the "
                     "back-pressure paths are covered by the correspondence run only",
                     "end-to-end theorems (RTS/CTS and BAM): any number of devices per node, any acting device index on either side, the other "
-                    "devices idle (Lead), the two nodes poll alternately, any delays below the "
-                    "sender's timeouts (RTS/CTS: < 50 ms before the first CTS, < 100 ms afterwards; BAM: >= 51 ms between the sender's "
-                    "polls); idle polls in between are no-ops (poll_idle)",
+                    "devices idle (Lead); RTS/CTS (C10_end_to_end_any_order): ANY order of polls of the two nodes, every poll of the sender "
+                    "before its own timeout is due (< 50 ms after arming at the RTS, < 100 ms after arming at a CTS; idle polls add up), no "
+                    "condition on the receiver's delays, at least 2*packets+2 effective polls; the _partial theorems: the two nodes poll "
+                    "alternately (BAM: >= 51 ms between the sender's polls); an untimely schedule (sender aborts) is not composed end to end",
                     "free receive slots carry TPRequireCTS = 0 (constructor / FreeMessage invariant; hypothesis of the BAM end-to-end theorem)"],
 }
 MANIFEST = {
@@ -42,8 +43,9 @@ MANIFEST = {
             "carrying the embedded PGN and the payload, a wrong sequence number frees the slot, sends Abort and delivers nothing; "
             "sessions time out and later transfers start; library sender and library receiver composed over a loss-free in-order "
             "channel complete the transfer with exactly one intact delivery, for RTS/CTS and for BAM, under every poll schedule "
-            "within the timeouts (any acting device of nodes with any number of otherwise idle devices; strictly alternating polls: theorems "
-            "are named _partial). Receiver safety over EVERY history (C10_receiver_safe_all_histories, an inductive invariant against the reference "
+            "within the timeouts (any acting device of nodes with any number of otherwise idle devices; RTS/CTS under ANY order of polls "
+            "of the two nodes with the sender's timeouts respected - C10_end_to_end_any_order, bound 2*packets+2 effective polls; "
+            "BAM and the round-counting form for strictly alternating polls: theorems named _partial). Receiver safety over EVERY history (C10_receiver_safe_all_histories, an inductive invariant against the reference "
             "bookkeeping Spec.tpTrack): every handler call caused by a transfer has len <= 223, exactly len bytes, all from the in-order "
             "packets of one session of its source/destination/PGN. Correspondence: the real tNMEA2000 (both timer builds) against a scripted reference peer in both "
             "roles (every length, grants 1..255, holds, late answers, aborts, silence, every single dropped/duplicated/reordered "
